@@ -17,7 +17,7 @@ DVKINDS = [k for k in KINDS if k != "u8c"]
 OTHER = ["every", "some", "find", "findIndex", "findLast", "findLastIndex", "forEach", "map", "filter", "toSorted",
          "reduce", "reduceRight", "indexOf", "lastIndexOf", "includes", "at", "join", "with", "toReversed",
          "toString", "toLocaleString", "keys", "values", "entries", "iterate", "export"]
-PROPS_MIN = 44
+PROPS_MIN = 50
 
 
 def f64(x):
@@ -218,8 +218,8 @@ class Gen:
 
     def op(self):
         r = self.r
-        choices = ["g", "p", "f", "c", "s", "a", "l", "u", "o", "r", "m", "X", "V", "D", "R", "T", "w", "t", "M", "O", "A"]
-        weights = [6, 8, 10, 12, 10, 7, 10, 7, 5, 3, 5, 1, 4, 3, 2, 3, 4, 4, 8, 8, 3]
+        choices = ["g", "p", "f", "c", "s", "a", "l", "u", "o", "r", "m", "X", "V", "D", "R", "T", "w", "t", "M", "O", "A", "Q", "k", "e", "J"]
+        weights = [6, 8, 10, 12, 10, 7, 10, 7, 5, 3, 5, 1, 4, 3, 2, 3, 4, 4, 8, 8, 3, 9, 4, 5, 3]
         if self.dvs:
             choices += ["G", "S"]
             weights += [8, 10]
@@ -386,6 +386,51 @@ class Gen:
                     w = self.views[di]
                     if not self.bufs[w["b"]]["det"]:
                         self.views.append(dict(w))
+        elif o == "Q":
+            mode = r.choice(["lastIndexOf", "lastIndexOf", "indexOf", "includes"])
+            big = v["k"] in ("bi64", "bu64")
+            if big:
+                tok = "b%d" % r.choice([0, 1, -1, 2, 255, 2 ** 63 - 1, -2 ** 63, r.randint(-300, 300)])
+            else:
+                c = r.random()
+                tok = f64(float(r.randint(0, 12))) if c < 0.5 else (f64(float(r.choice([0, 255, 127, 128, -1, -128, 65535, 32767, 0.5, 1.5, -0.0]))) if c < 0.85 else f64(float(r.randint(-70000, 70000))))
+                if tok == f64(-0.0):
+                    tok = f64(0.0)
+            c = r.random()
+            if c < 0.2:
+                fr, d = "_", []
+            elif c < 0.75:
+                fr = str(r.choice([L - 1, L, L + 1, -L - 1, -L, -1, 0, 1, r.randint(-L - 2, L + 2), 1000, 2 ** 31, 2 ** 53 - 1, -(2 ** 53 - 1)]))
+                d = self.dets()
+                fr = self.bang(fr, d)
+            else:
+                fr = r.choice(["inf", "-inf", "nan"])
+                d = self.dets()
+                fr = self.bang(fr, d)
+            self.lines.append("Q %s %d %s %s" % (mode, vi, tok, fr))
+            if not self.bufs[v["b"]]["det"] and L > 0:
+                self.apply(d)
+        elif o == "k":
+            it, _, d = self.iarg(L, optional=False)
+            self.lines.append("k %d %s" % (vi, it))
+            if not self.bufs[v["b"]]["det"]:
+                self.apply(d)
+        elif o == "e":
+            m = r.choice(VISIT)
+            if m in ("values", "entries") or L == 0 or r.random() < 0.5:
+                self.lines.append("e %s %d _" % (m, vi))
+            else:
+                kk = r.randrange(L)
+                d = self.dets(force=True)
+                self.lines.append("e %s %d %s" % (m, vi, self.bang(str(kk), d) if d else "_"))
+                if not self.bufs[v["b"]]["det"]:
+                    self.apply(d)
+        elif o == "J":
+            m = r.choice(["join", "join", "toString", "toLocaleString"])
+            d = self.dets() if m == "join" else []
+            self.lines.append("J %s %d %s" % (m, vi, ",".join(map(str, d)) if d else "_"))
+            if not self.bufs[v["b"]]["det"]:
+                self.apply(d)
         elif o in ("R", "T", "w", "t", "M"):
             att0 = not self.bufs[v["b"]]["det"]
             fresh = None
@@ -545,6 +590,66 @@ def codec_cases():
         yield lines
 
 
+GUARD = 32
+
+
+def canary_byte(i):
+    return (0xA5 ^ (i * 7)) & 0xFF
+
+
+def decode_tok(kind, bs):
+    """value token of the element stored in bytes `bs` (little-endian), or None for a NaN"""
+    if kind in ("bi64", "bu64"):
+        return "b%d" % int.from_bytes(bs, "little", signed=(kind == "bi64"))
+    if kind == "f32":
+        v = struct.unpack("<f", bs)[0]
+    elif kind == "f64":
+        v = struct.unpack("<d", bs)[0]
+    else:
+        v = float(int.from_bytes(bs, "little", signed=kind.startswith("i")))
+    if v != v:
+        return None
+    return f64(v)
+
+
+def search_cases():
+    """Out-of-view READS made observable: for every kind, an inner view (neighbouring elements on both sides) and a
+    view that covers the whole buffer (the canary bytes on both sides decode to the searched value); every search
+    method with fromIndex / index from the boundary classes, searching the value stored just AFTER and just BEFORE
+    the view and one value inside it; `at`, the visiting methods and join on the same views."""
+    for k in KINDS:
+        es = ES[k]
+        n = 6 * es
+        data = bytes((17 * i + 3) & 0xFF for i in range(n))
+        lead = bytes(canary_byte(GUARD - es + j) for j in range(es))
+        trail = bytes(canary_byte(j + 101) for j in range(es))
+        views = [("V %s 0 %d 3" % (k, es), data[4 * es:5 * es], data[0:es], data[2 * es:3 * es], 3),     # inner view
+                 ("V %s 0 0 _" % k, trail, lead, data[5 * es:6 * es], 6),                               # whole buffer
+                 ("V %s 0 %d 2" % (k, 4 * es), trail, data[3 * es:4 * es], data[4 * es:5 * es], 2)]     # tail view
+        for vline, after, before, inside, L in views:
+            lines = ["N", "B " + data.hex(), vline]
+            froms = ["_", str(L - 1), str(L), str(L + 1), "1000", str(2 ** 31), str(2 ** 53 - 1), "inf", "-inf", str(-L - 1), str(-L), "-1", "0", "nan",
+                     str(L) + "!9", str(-1) + "!9"]
+            for bs in (after, before, inside):
+                tok = decode_tok(k, bs)
+                if tok is None:
+                    continue
+                for mode in ("lastIndexOf", "indexOf", "includes"):
+                    for fr in froms:
+                        lines.append("Q %s 0 %s %s" % (mode, tok, fr))
+            for idx in [str(L - 1), str(L), str(L + 1), str(-L), str(-L - 1), "-1", "0", "1000", "inf", "-inf", "nan"]:
+                lines.append("k 0 %s" % idx)
+            for m in VISIT:
+                lines.append("e %s 0 _" % m)
+            for m in ("join", "toString", "toLocaleString"):
+                lines.append("J %s 0 _" % m)
+            # a subarray and reads at its edges
+            lines += ["u 0 1 -1 _", "g 1 -1", "g 1 %d" % max(L - 3, 0), "g 1 %d" % max(L - 2, 0), "Q lastIndexOf 1 %s %d" % (decode_tok(k, inside) or "x0000000000000000", max(L - 2, 0))]
+            yield lines
+
+
+VISIT = ["every", "some", "find", "findIndex", "findLast", "findLastIndex", "forEach", "reduce", "reduceRight", "values", "entries"]
+
 FLAG_RE = re.compile(r"\b(CANARY|POSTDETACH|ALIAS-VIEW|ALIAS)!(\d+)")
 
 
@@ -552,6 +657,8 @@ def classify(op_line, impl, model):
     """signature class of a mismatching line (impl = harness output, model = Lean driver output or None)."""
     op = op_line.split()
     opk = op[0] + (":" + op[1] if op[0] in ("m", "V", "O") else "") + (":" + op[2] if op[0] in ("G", "S") else "")
+    if op[0] in ("Q", "e", "J"):
+        opk += ":" + op[1]
     if op[0] == "O":
         opk += ":builtin-ctor" if op[2] in ES else ":user-ctor"
     if op[0] == "M":
@@ -765,7 +872,22 @@ def signature(lines, i, cls, outs, mline=None):
         def hd(x):
             x = x.split(" | ")[0]
             return ":".join(x.split(":")[:2]) if x.startswith("E:") else x.split(":")[0].split(" ")[0]
-        return cls + ":impl=" + head + (":spec=" + hd(mline) if mline else "")
+        extra = ""
+        if opw[0] == "Q":
+            kinds = view_kinds(lines, outs)
+            try:
+                kind = kinds[int(opw[2])]
+            except (IndexError, ValueError):
+                kind = "?"
+            vc = value_class(opw[3])
+            if opw[3].startswith("x") and int(opw[3][1:], 16) % 2 ** 63 == 0:
+                vc = "zero"
+            if opw[3].startswith("b"):
+                n = int(opw[3][1:])
+                lo, hi = (-2 ** 63, 2 ** 63 - 1) if kind == "bi64" else (0, 2 ** 64 - 1)
+                vc = "bigint-in-range" if lo <= n <= hi else "bigint-out-of-range"
+            extra = ":%s:%s" % (kind, vc)
+        return cls + extra + ":impl=" + head + (":spec=" + hd(mline) if mline else "")
     if cls.split(":")[0] == "bytes-mismatch" and opw[0] in ("p", "f", "S", "a"):
         if opw[0] == "S":
             kind, toks = opw[2], [opw[4]]
@@ -871,10 +993,12 @@ def main(ctx):
     g1 = list(grid_ctor_cases(sizes))
     g2 = list(grid_dv_cases(dvsizes))
     g3 = list(codec_cases())
+    g4 = list(search_cases())
     ctx.stats["grid"] = {"ctor_cases": len(g1), "ctor_buffer_sizes": sizes, "dataview_cases": len(g2), "dataview_buffer_sizes": dvsizes,
                          "codec_cases": len(g3), "exhaustive": "constructors: every kind x every byteOffset 0..n+1 x every length 0..max+1 and absent; "
                          "DataView: every (byteOffset, byteLength) x 10 types x every index x both byte orders, for the listed buffer sizes"}
-    cases += g1 + g2 + g3
+    ctx.stats["grid"]["search_cases"] = len(g4)
+    cases += g1 + g2 + g3 + g4
     # random histories
     nrand = int(os.environ.get("C17_RANDOM", "0")) or (2500 if quick else 16000)
     for i in range(nrand):
